@@ -72,6 +72,7 @@ pub struct Ctx<'a> {
     pub loop_ctx: Vec<LoopCtx>,
     pub sig_params: Vec<(String, String)>, // (lean name, lean type) of function params incl. self
     pub value_depth: usize,
+    pub prelude: Vec<String>,
 }
 
 #[derive(Clone)]
@@ -118,6 +119,10 @@ impl<'a> Ctx<'a> {
     }
     pub fn pop(&mut self) {
         self.scopes.pop();
+    }
+    pub fn take_prelude(&mut self) -> String {
+        let p: String = self.prelude.drain(..).collect();
+        p
     }
     pub fn fresh(&mut self, base: &str) -> String {
         self.fresh += 1;
